@@ -110,6 +110,15 @@ func c01pCheckDir(c *core.Ctx, k c01pCase, sess int, c2s bool, dirNo int, segs [
 			closeAt = j
 		}
 		if s.IsData() || s.Proto == wire.OpenSessionRequest || s.Proto == wire.OpenSessionResponse {
+			if closeAt >= 0 && s.Proto == wire.OpenSessionResponse && len(s.Payload) == 0 {
+				// The server application wrote and closed before the session's input loop got to the
+				// open request (starved at load 75, seed 2 of round 4: data 0..2, close request 3,
+				// open response 4). The response is empty and goes to a session its own close request
+				// closes; the reader had everything. The model's `acceptOpen` on a closed session emits
+				// nothing — recorded as a model gap in docs/notes/C01.md, not compared.
+				c.Hist("program_open_response_after_close", name)
+				continue
+			}
 			if closeAt >= 0 && readerLeft {
 				// The READER of this direction closed without reading to the end: its close request
 				// makes this side's input loop answer (close response, own close request) while the
